@@ -248,8 +248,8 @@ Lemma common_guards_NoDup a b : NoDup (common_guards a b).
 Proof. unfold common_guards. apply NoDup_filter', dedup_NoDup. Qed.
 
 (** shape of a successful [apply_bin_op] *)
-Lemma apply_bin_op_shape debug rank op a b r :
-  apply_bin_op debug rank op a b = Ok r ->
+Lemma apply_bin_op_shape rp debug rank op a b r :
+  apply_bin_op rp debug rank op a b = Ok r ->
   exists out1,
     merge_common op a b (sort_by rank (common_guards a b)) = Ok out1 /\
     r = out1 ++ cross op (filter (fun e => negb (bmem (fst e) (common_guards a b))) a)
@@ -260,7 +260,7 @@ Proof.
   exists out1. split; [exact Hm |].
   destruct (filter (fun e => negb (bmem (fst e) (common_guards a b))) a) as [| ea a'] eqn:Ea; cbn [is_nil] in H.
   - inversion H. cbn. now rewrite app_nil_r.
-  - destruct (debug && is_nil _); [discriminate |]. now inversion H.
+  - match type of H with (if ?c then _ else _) = _ => destruct c; [discriminate |] end. now inversion H.
 Qed.
 
 Lemma cross_row_In op ea b e :
@@ -304,8 +304,8 @@ Proof.
 Qed.
 
 (** [den_commutes] for [apply_bin_op]; needs no disjointness of the operands *)
-Lemma bin_denotes debug rank op a b r v x y :
-  apply_bin_op debug rank op a b = Ok r ->
+Lemma bin_denotes rp debug rank op a b r v x y :
+  apply_bin_op rp debug rank op a b = Ok r ->
   denotes v a x -> denotes v b y -> denotes v r (op x y).
 Proof.
   intros H [(ea & Hea & Hta) Hfa] [(eb & Heb & Htb) Hfb].
@@ -340,8 +340,8 @@ Proof.
 Qed.
 
 (** [partition_inv] for [apply_bin_op] *)
-Lemma bin_partition debug rank op a b r v :
-  apply_bin_op debug rank op a b = Ok r ->
+Lemma bin_partition rp debug rank op a b r v :
+  apply_bin_op rp debug rank op a b = Ok r ->
   count_true v a = 1 -> count_true v b = 1 -> count_true v r = 1.
 Proof.
   intros H Ha Hb.
@@ -365,7 +365,7 @@ Proof.
 Qed.
 
 (** in builds without debug assertions [apply_bin_op] never panics *)
-Lemma bin_no_panic_release rank op a b : exists r, apply_bin_op false rank op a b = Ok r.
+Lemma bin_no_panic_release rp rank op a b : exists r, apply_bin_op rp false rank op a b = Ok r.
 Proof.
   unfold apply_bin_op. cbn [andb].
   destruct (merge_common_total op a b (sort_by rank (common_guards a b))) as [o ->].
